@@ -137,6 +137,7 @@ type c10B struct {
 	dterm    map[string]uint32
 	gone     map[string]bool
 	upgrades map[uint32]bool // prevTerm -> upgrade entry present
+	pendUp   []uint32        // terms installed by Rotate whose upgrade entry has not been written yet (CreateUpgrade is a separate call)
 	sSealed  bool
 	sTerm    uint32
 	sBase    uint32 // newest term the standby loaded from storage (unseal / keyring reload); newer ones came by the upgrade path
@@ -845,15 +846,82 @@ func (e *c10B) opRotate(ha bool) {
 	e.ref = c10Snap(c10Raw(e.p).keyring)
 	e.r.Count("rotations", 1)
 	if ha {
-		if err := e.p.CreateUpgrade(c10Ctx, nt); err != nil {
-			if e.tolerate(err) {
-				return
-			}
-			e.viol("create-upgrade-failed", "CreateUpgrade(%d): %v", nt, err)
+		e.createUpgrade(nt)
+	}
+}
+
+// opRotateDeferred: Rotate now, CreateUpgrade later (the product issues them as two separate
+// barrier calls; another rotation can complete in between).
+func (e *c10B) opRotateDeferred() {
+	before := e.term
+	e.opRotate(false)
+	if !e.failed && e.term == before+1 {
+		e.pendUp = append(e.pendUp, e.term)
+		e.r.Count("rotations_with_the_upgrade_entry_written_later", 1)
+	}
+}
+
+// opCreateUpgrade writes the upgrade entry of one rotation that still lacks it: the oldest, or any.
+func (e *c10B) opCreateUpgrade() {
+	if len(e.pendUp) == 0 || e.sealed {
+		return
+	}
+	i := 0
+	if e.rng.Chance(1, 2) {
+		i = e.rng.Intn(len(e.pendUp))
+	}
+	t := e.pendUp[i]
+	e.pendUp = append(e.pendUp[:i], e.pendUp[i+1:]...)
+	if t < e.term {
+		e.r.Count("upgrade_entries_written_after_a_later_rotation", 1)
+	}
+	if i > 0 {
+		e.r.Count("upgrade_entries_written_out_of_order", 1)
+	}
+	e.createUpgrade(t)
+}
+
+// createUpgrade = CreateUpgrade(t) on the active node, then the entry itself is looked at: the
+// record core/upgrade/<t-1> is sealed under term t-1 and holds exactly the key of term t.
+func (e *c10B) createUpgrade(t uint32) {
+	err := e.p.CreateUpgrade(c10Ctx, t)
+	if t != e.term {
+		e.step("create-upgrade", "create-upgrade to term %d (active term %d) err=%v", t, e.term, err)
+	}
+	if err != nil {
+		if e.tolerate(err) {
 			return
 		}
-		e.upgrades[nt-1] = true
+		e.viol("create-upgrade-failed", "CreateUpgrade(%d): %v", t, err)
+		return
 	}
+	e.upgrades[t-1] = true
+	path := fmt.Sprintf("%s%s%d", e.meta, KeyringUpgradePrefix, t-1)
+	pe, gerr := e.probe.Inner().Get(c10Ctx, path)
+	if gerr != nil || pe == nil || len(pe.Value) < 5 {
+		e.viol("upgrade-entry-missing", "CreateUpgrade(%d) returned nil but %s is not in storage (%v)", t, path, gerr)
+		return
+	}
+	if ht := binary.BigEndian.Uint32(pe.Value[:4]); ht != t-1 {
+		e.viol("upgrade-entry-holds-another-terms-key", "the upgrade entry %s is sealed under term %d; a standby at term %d cannot open it", path, ht, t-1)
+		return
+	}
+	plain, derr := e.p.Decrypt(c10Ctx, path, pe.Value)
+	if derr != nil {
+		e.viol("upgrade-entry-holds-another-terms-key", "the upgrade entry %s does not open under term %d: %v", path, t-1, derr)
+		return
+	}
+	key, kerr := DeserializeKey(plain)
+	want := c10Raw(e.p).keyring.TermKey(t)
+	if kerr != nil || key == nil || want == nil {
+		e.viol("upgrade-entry-holds-another-terms-key", "the upgrade entry %s does not hold a key (%v)", path, kerr)
+		return
+	}
+	if key.Term != t || !bytes.Equal(key.Value, want.Value) {
+		e.viol("upgrade-entry-holds-another-terms-key", "the upgrade entry %s (the step from term %d to term %d) holds the key of term %d (bytes equal to the active node's key of term %d: %v); the active term was %d when CreateUpgrade(%d) ran", path, t-1, t, key.Term, t, bytes.Equal(key.Value, want.Value), e.term, t)
+		return
+	}
+	e.r.Count("upgrade_entries_compared_with_the_term_key", 1)
 }
 
 func (e *c10B) opRotateRoot() {
@@ -1523,8 +1591,21 @@ func (e *c10B) run(n int) {
 			e.opDelete()
 		case x < 38:
 			e.opEncrypt()
+		case x < 47:
+			switch y := e.rng.Intn(5); {
+			case y == 0:
+				e.opRotate(false)
+			case y <= 2:
+				e.opRotate(true)
+			default:
+				e.opRotateDeferred()
+			}
 		case x < 50:
-			e.opRotate(e.rng.Chance(4, 5))
+			if len(e.pendUp) > 0 {
+				e.opCreateUpgrade()
+			} else {
+				e.opRotateDeferred()
+			}
 		case x < 58:
 			e.opRotateRoot()
 		case x < 62:
@@ -1724,6 +1805,9 @@ func (e *c10B) finish() {
 	if e.failed {
 		return
 	}
+	for len(e.pendUp) > 0 && !e.failed && !e.sealed {
+		e.opCreateUpgrade()
+	}
 	// bring the standby in line at the end whenever the upgrade path allows it
 	if e.s != nil && !e.sSealed && e.pathIntact() {
 		for i := 0; i < 3 && !e.failed && e.sTerm != e.term; i++ {
@@ -1796,6 +1880,8 @@ func TestVerif_C10_BarrierHistories(t *testing.T) {
 	r.Require("standby_reads_while_behind_failed_legitimately", 300/div)
 	r.Require("standby_rereads_ok_of_terms_installed_by_the_upgrade_path", 300/div)
 	r.Require("standby_reads_ok", 5000/div)
+	r.Require("upgrade_entries_compared_with_the_term_key", 400/div)
+	r.Require("upgrade_entries_written_after_a_later_rotation", 40/div)
 	r.Require("transactional_put_term_checks", 45/div)
 	r.Require("transactional_put_term_checks_after_key_operation_in_an_older_transaction", 24/div)
 	r.Require("operations_of_a_transaction_opened_before_seal_refused", 100/div)
